@@ -11,6 +11,8 @@ AGENT_NOTE = ("Trusted: TLC 1.8 + CommunityModules; the Rust adapter /verif/harn
               "HMAC validity is abstracted to key identity in the agent model (byte-level truth is C04).")
 AGENT_TECH = "TLA+ model checking (TLC) of StunAgent/MCAgent + LTS-guided replay into the real StunAgent + TLC trace validation of recorded runs"
 
+CODEC_NOTE = "Trusted: TLC + CommunityModules (Json, IOUtils, Bitwise); the Rust adapter (records what the crates answer, no expectations); the python comparison (field equality) and, for HMAC/MD5 only, python's hmac/hashlib. Exhaustive over the enumerated skeleton space; values and mutants are sampled."
+
 CHECKS = {
  "C05": dict(cat="model_checking", ref="3.1, 4, 5/C05", tech=AGENT_TECH, note=AGENT_NOTE,
    text="TLC checks the life-cycle step properties (C05Step: events only while open, removal iff completion event, duplicate send refused, unknown responses ignored, id reusable) on every transition of the bounded agent models (UDP and TCP, 2 transactions, all interleavings of send/recv/poll/cancel/configure/credentials). Every (state,input) pair of the dumped LTSs plus all input words to depth 3/4 and random walks are executed on the real StunAgent and followed through the LTS, comparing every reply and the API-visible outstanding set after every call; random long histories with real values are validated by TLC against the same actions."),
@@ -22,9 +24,19 @@ CHECKS = {
    text="TLC checks Validation on every transition (monotone; grows only by the sender of an accepted request/indication/delivered response; drops never validate). Replay and trace validation compare is_validated_peer for every address of the universe (incl. the local address and destinations) after every call."),
  "C18": dict(cat="model_checking", ref="3.1, 5/C18", tech=AGENT_TECH, note=AGENT_NOTE,
    text="TLC checks that every Transmit reply carries the payload and destination recorded at send time (ghost computed from events only). The adapter serialises each builder itself before send and compares every transmission (initial and retransmissions) byte for byte, plus from/to/transport and peer_address while outstanding; indications and responses leave the state unchanged."),
+ "C02": dict(cat="model_checking", ref="3.5, 5/C02, App. B", tech="TLA+ specification of the parser (operational Parse vs declarative WellFormed) model-checked by TLC over all message skeletons; every skeleton, builder-generated message and byte mutant replayed into Message::from_bytes and judged by the TLA+ reference decoder", note=CODEC_NOTE,
+   text="TLC enumerates every message skeleton (16 attribute letters incl. integrity/fingerprint with right and wrong lengths and CRCs, 13 header variants incl. top bits, cookie and declared-length defects, truncation defects of the last attribute) to depth 2-4 (thorough 3-5) and checks on each that the operational parser accepts iff the declarative well-formedness of C02 holds and that the reported error is one the buffer justifies. Each skeleton, 250 (4000) builder-generated messages over all 19 attribute types and 4 (8) byte-level mutants of each are parsed by the implementation; verdict, error variant and carried type, class/method/id, exposed (type,value) sequence and first-match lookups are compared with the TLA+ decoder's."),
+ "C10": dict(cat="model_checking", ref="3.5, 5/C10", tech="TLC checks ExposureInv on all integrity/fingerprint tail shapes; iteration/lookup of the implementation compared with Exposed()/Lookup() of the TLA+ decoder on every accepted case", note=CODEC_NOTE,
+   text="All orders and subsets of {MESSAGE-INTEGRITY, MESSAGE-INTEGRITY-SHA256, FINGERPRINT} (several lengths / CRC variants) after 0-2 (thorough 0-4) ordinary attributes are enumerated by TLC, which checks that the exposed attributes are exactly: everything up to and including the first integrity attribute, a SHA256 directly following a MESSAGE-INTEGRITY, the FINGERPRINT; that FINGERPRINT is always exposed; and that every exposed non-ending attribute ends before the offset validate_integrity authenticates. iter_attributes, raw_attribute, has_attribute and attribute::<T>() of the implementation are compared with that on every accepted enumerated and builder/externally sealed message."),
+ "C16": dict(cat="model_checking", ref="3.5, 5/C16", tech="Police() of the TLA+ specification evaluated by TLC on enumerated and generated requests x supported/required subsets, compared with check_attribute_types; comprehension_required compared on all 65536 types", note=CODEC_NOTE,
+   text="For TLC-enumerated request skeletons (incl. duplicates and attributes hidden after integrity) and builder-generated requests, check_attribute_types is called with empty, full and random supported/required subsets of the types present and absent; the verdict (none/400/420), the UNKNOWN-ATTRIBUTES list in message order, class/method/transaction id/ERROR-CODE of the generated response and its re-parse are compared with Police(). comprehension_required is compared with 'type < 0x8000' on all 65536 types (exhaustive)."),
+ "C17": dict(cat="model_checking", ref="3.5, 5/C17", tech="ParsePrefix of the TLA+ specification evaluated by TLC for EVERY cut point of every well-formed case, compared with Message::from_bytes and MessageHeader::from_bytes", note=CODEC_NOTE + " Exhaustive in cut points per message.",
+   text="For every well-formed enumerated skeleton and every builder-generated message up to 260 (900) bytes, every strict prefix is parsed by the implementation and by the specification: Truncated{20, n} below 20 bytes and Truncated{len(m), n} from 20 bytes on (both MUST, exact numbers); the stand-alone header decoder accepts exactly from 20 bytes and reports the same type, id and declared length."),
  "C14": dict(cat="model_checking", ref="3.3, 5/C14", tech="TLA+ model checking (TLC) of TcpFraming/MCTcpFraming + replay of every LTS edge into the real TcpBuffer + TLC trace validation of recorded runs with real frame sizes",
    note="Trusted: TLC, the Rust adapter, the python label matcher. Exhaustive for streams of <= 8 (thorough 11) bytes with frame lengths 0..2; lengths up to 65535 are sampled by trace validation.",
    text="TLC checks on all frame sequences x all chunkings x all push/pull interleavings that the pulled frames are a prefix of the sent frames (none lost, duplicated, merged, reordered, altered), that no byte is lost or invented, that pull answers nothing exactly when no complete frame is buffered and then leaves the buffer intact, and that everything is delivered once pushed. Every edge of the dumped LTS is executed on the real TcpBuffer; random frame sequences with lengths from {0,1,2,253..258,65534,65535,...} and random chunking (1-byte chunks, multi-frame chunks) are recorded and validated by TLC with the same invariants."),
+ "C19": dict(cat="model_checking", ref="3.4, 5/C19", tech="RFC 8489 s5 bit layout as TLA+ formulas, algebra checked exhaustively by TLC; the implementation's complete encode/decode table judged by TLC", note=CODEC_NOTE,
+   text="TLC checks over all 4x4096 (class, method) pairs and all 16384 in-range field values that TypeField/ClassOf/MethodOf are mutually inverse and implement the M11..M7 C1 M6..M4 C0 M3..M0 interleaving bit by bit. The implementation's decode of all 65536 field values (incl. NotStun for the top-bit ones), its encode of all 16384 pairs (to_bytes and write_into), and transaction ids (boundary patterns, every single bit, random) through From<u128>, the builder, the parser and the header decoder, plus 10000 generated ids, are recorded and judged by TLC record by record (exhaustive for the type field)."),
  "C20": dict(cat="model_checking", ref="3.2, 5/C20", tech="TLA+ self-composition (StunAgentShift) checked by TLC + replay of identical LTS scripts under shifted base instants, another thread and decoy agents", note=AGENT_NOTE + " Ambient state other than the clock, thread and other agents is not varied.",
    text="TLC checks on the two-copy product that the same history shifted by D gives the same state and replies shifted by D, that the same poll choices are open, and that an instant passed for one transaction never changes another's record. Every LTS script is executed at base T0, T0+10^9 ms, on a spawned thread and interleaved with decoy agents (base 10^6 s away from the real clock, so a stray Instant::now() cannot agree); all runs must conform to the same LTS and, where no poll choice was open, agree event for event."),
 }
